@@ -12,6 +12,24 @@ sys.path.insert(0, os.path.dirname(os.path.abspath(__file__)))
 import core  # noqa: E402
 
 
+def guarded(ctx, phase, fn):
+    """an exception raised INSIDE the code under test (a frame in the dfols package) while the harness drives it with inputs
+    the model accepts is a broken correspondence, not a failure of the tool; anything else propagates (exit 2)"""
+    try:
+        fn(ctx)
+    except Exception as exc:
+        root = os.path.join(os.path.realpath(core.REPO), "dfols") + os.sep
+        frames = [f for f in traceback.extract_tb(exc.__traceback__) if os.path.realpath(f.filename).startswith(root)]
+        if not frames:
+            raise
+        last = frames[-1]
+        ctx.broke("%s:code-under-test-raised" % phase, {"exception": type(exc).__name__, "message": str(exc)[:200],
+                                                        "where": "%s:%d %s" % (os.path.relpath(last.filename, root), last.lineno, last.name),
+                                                        "harness_frame": next(("%s:%d" % (os.path.basename(f.filename), f.lineno)
+                                                                               for f in reversed(traceback.extract_tb(exc.__traceback__))
+                                                                               if "harness" in f.filename), "?")})
+
+
 def main():
     ap = argparse.ArgumentParser()
     ap.add_argument("prop")
@@ -39,13 +57,13 @@ def main():
         if tier == "thorough" and build.ok:
             core.leanchecker(ctx, mod.MODULE)
         ctx.boost = 1
-        mod.correspondence(ctx)
-        mod.search(ctx)
+        guarded(ctx, "correspondence", mod.correspondence)
+        guarded(ctx, "search", mod.search)
         if (ctx.broken or not build.ok) and not ctx.failures:
             # a proof obligation / correspondence no longer checks: enlarge the failing-input search
             ctx.boost = 5
             ctx.notes.append("enlarged failing-input search because an obligation/correspondence broke")
-            mod.search(ctx)
+            guarded(ctx, "search", mod.search)
         rc = core.finish(ctx, mod.MODULE, mod.THEOREMS, build, audit, level=getattr(mod, "LEVEL", "proof"),
                          trusted_extra=getattr(mod, "TRUSTED_EXTRA", ()), explanation=getattr(mod, "EXPLANATION", ""))
     except Exception:
